@@ -768,6 +768,21 @@ fn dict_merge_model(ctx: &mut Ctx, readers: &[ColumnarReader], name: &str, cat: 
             return;
         }
     }
+    // the whole merged column as the model builds it (dictionary, index, remapped ordinals)
+    if order.len() <= 700 && readers.iter().map(|r| r.num_docs() as usize).sum::<usize>() <= 1500 {
+        let ins_txt: Vec<String> = cols.iter().zip(readers).map(|(c, r)| match c {
+            Some(bc) => rows_text(&(0..r.num_docs()).map(|d| bc.term_ords(d).collect::<Vec<u64>>()).collect::<Vec<_>>()),
+            None => format!("~{}", r.num_docs()),
+        }).collect();
+        let o = if order.is_empty() { "-".to_string() } else { order.iter().map(|(s, r)| format!("{s}:{r}")).collect::<Vec<_>>().join(",") };
+        let resp = ctx.model.ask(&format!("C08 dictshuffle {} {o} {} {}", used_txt.join("/"), dict_txt.join("/"), ins_txt.join("/")));
+        let parsed = resp.split_once(';').and_then(|(m, rows)| Some((parse_nat_list(m)?, parse_rows_text(rows)?)));
+        if parsed != Some((model_merged.clone(), merged_ords.to_vec())) {
+            modelv(ctx, "C08:dict-merge-column", format!("{what}: the model's merged dictionary column differs from the real one"), case);
+            return;
+        }
+        ctx.report.count("merge:dict-column-compared");
+    }
     // the public all-terms mapping (index sorting uses it): every input present
     if cols.iter().all(|c| c.is_some()) {
         let present: Vec<BytesColumn> = cols.iter().flatten().cloned().collect();
